@@ -10,7 +10,7 @@ import (
 )
 
 func init() {
-	register(&Rule{ID: "DEPTH-1", Doc: "the nesting limit is the same everywhere, off-by-one included: every guard that returns errMaxDepth compares a depth expression X with a constant V using ==, and V - offset(X) == maxNestingDepth, where offset(len(m.Stack)) = 0 and offset(depth parameter) = 1 when every external call site passes Tokens.Depth() (= len(Stack)+1, read from Depth's body) and every internal call site passes the parameter after exactly one depth++ that follows the guard", Run: ruleDEPTH1})
+	register(&Rule{ID: "DEPTH-1", Doc: "the nesting limit is the same everywhere, off-by-one included: every guard that returns errMaxDepth compares a depth expression X with a constant so that the first refused value minus offset(X) equals maxNestingDepth, the guard is evaluated on every path to a return of its function, where offset(len(m.Stack)) = 0 and offset(depth parameter) = 1 when every external call site passes Tokens.Depth() (= len(Stack)+1, read from Depth's body) and every internal call site passes the parameter after exactly one depth++ that follows the guard", Run: ruleDEPTH1})
 	register(&Rule{ID: "KIND-1", Doc: "exhaustive kind dispatch: normKind maps exactly the RFC 8259 value/token start bytes (digits and '-' to '0'); the token dispatchers ReadToken/WriteToken have a case for each of the 9 normalised kinds and a default that fails; the value dispatchers consumeValue, reformatValue, ReadValue, WriteValue, unmarshalValueAny cover each of the 7 kinds that can start a value, and those that see unvalidated input fail in their default", Run: ruleKIND1})
 }
 
@@ -311,6 +311,9 @@ func ruleDEPTH1(c *Ctx) {
 					}
 				}
 			case *ast.ReturnStmt:
+				if guardOf[f] != nil && !s.guarded && bad == "" {
+					bad = "a path returns at " + p.Position(st.Pos()) + " without having evaluated the depth guard (a container is accepted unchecked)"
+				}
 				return nil
 			}
 			return []incS{s}
@@ -319,9 +322,8 @@ func ruleDEPTH1(c *Ctx) {
 			passes(e, s)
 			if guardOf[f] != nil && ast.Unparen(e) == ast.Expr(guardOf[f]) {
 				g := s
-				g.guarded = true
-				// the guard's true branch returns the error; the false branch continues guarded
-				return []incS{s}, []incS{g}
+				g.guarded = true // the guard has been evaluated on this path (either outcome)
+				return []incS{g}, []incS{g}
 			}
 			return []incS{s}, []incS{s}
 		}
@@ -339,9 +341,31 @@ func ruleDEPTH1(c *Ctx) {
 		case g.param != nil && paramOK[g.param]:
 			off, how = depthOffset, "depth parameter fed by Tokens.Depth()"
 		}
-		ok := off >= 0 && g.cmp.Op == token.EQL && g.v-off == max
+		// smallest refused value of X (X only ever grows by one, so == V, >= V and > V-1 are equivalent)
+		thr := int64(-1 << 40)
+		xLeft := ast.Unparen(g.cmp.X) == ast.Unparen(g.x)
+		op := g.cmp.Op
+		if !xLeft { // const OP x
+			switch op {
+			case token.LSS:
+				op = token.GTR
+			case token.LEQ:
+				op = token.GEQ
+			case token.GTR:
+				op = token.LSS
+			case token.GEQ:
+				op = token.LEQ
+			}
+		}
+		switch op {
+		case token.EQL, token.GEQ:
+			thr = g.v
+		case token.GTR:
+			thr = g.v + 1
+		}
+		ok := off >= 0 && thr-off == max
 		c.ObligeInfo("guard:"+g.f.Name, g.cmp.Pos(), ok,
-			fmt.Sprintf("compares %s (%s, offset %d) %s %d; limit is %d", exprString(g.x), how, off, g.cmp.Op, g.v, max))
+			fmt.Sprintf("compares %s (%s, offset %d) %s %d, i.e. refuses from %d; limit is %d", exprString(g.x), how, off, g.cmp.Op, g.v, thr-off, max))
 	}
 }
 
